@@ -368,3 +368,36 @@ pub fn crosspost_rollback_prelude(p: &mut Plan, sql: bool) {
     p.ops = pre;
     p.ops.extend(tail);
 }
+
+/// Directed prelude (C03, C05, C08): a member's request to leave reaches the admin while the admin
+/// holds a commit of its own whose publication then fails; the admin's next `add_members` commit
+/// sweeps the queued removal in, and the newcomer takes over the leaver's leaf at once. The leaver
+/// then processes a commit that removes it *and* re-populates its leaf.
+pub fn leave_swept_into_add_prelude(p: &mut Plan, leaver: u8) {
+    p.setup.members = 3;
+    p.setup.admin_mask = 1;
+    p.setup.regime = Regime::Causal;
+    p.setup.side = 0;
+    p.setup.spares = p.setup.spares.max(1);
+    let n_act = 3 + p.setup.spares as u32;
+    let act = |i: u32| (((i << 16) / 3) + 1) as u16;
+    let mem = |i: u32| (((i << 16) / n_act) + 1) as u16;
+    let l = 1 + (leaver % 2) as u32;
+    let pre = vec![
+        Op::SelfUpdate { m: act(0), ts: 2, apply: Apply::Echo },
+        Op::Leave { m: act(l), ts: 2 },
+        // the admin sees the request (the newest event it has not seen), not its own commit
+        Op::Deliver { m: mem(0), sel: u16::MAX },
+        Op::ClearPending { m: act(0) },
+        Op::Add { m: act(0), ts: 2, apply: Apply::Echo, extra: 0 },
+        Op::SelfEcho { m: mem(0) },
+        Op::CatchUp { m: mem(l) },
+        Op::CatchUp { m: mem(3 - l) },
+        Op::Msg { m: act(0), kind: 0, at: 0, tag: 0 },
+        Op::CatchUp { m: mem(l) },
+    ];
+    p.ops.truncate(25);
+    let tail = std::mem::take(&mut p.ops);
+    p.ops = pre;
+    p.ops.extend(tail);
+}
